@@ -6,6 +6,7 @@
 package c13
 
 import (
+	"crypto/sha256"
 	"encoding/hex"
 	"os"
 	"sort"
@@ -130,7 +131,7 @@ func sweep(x *mon.Ctx) {
 	r := &runner{x: x, gs: newGuards(), st: newSites()}
 	setEditBreadth(x.Thorough())
 	allSubstitutions = x.Thorough()
-	x.Note("c13.sweep: %d entry points, %d artefacts, %d bytes of seeds, %d DER edits per node", len(es), len(w.list), totalLen(w), editsPerNode)
+	x.Note("c13.sweep: %d entry points, %d artefacts, %d bytes of seeds (sha256 %s), %d DER edits per node", len(es), len(w.list), totalLen(w), worldDigest(w), editsPerNode)
 
 	spliceCases := x.Scale(1, 12)
 	spliceN := x.Scale(96, 256)
@@ -227,6 +228,16 @@ func profileNote(x *mon.Ctx) {
 	for _, k := range ks {
 		x.Note("profile %8.2fs %s", profile[k].Seconds(), k)
 	}
+}
+
+// worldDigest identifies the seed artefacts of a run (informational: equal in every shard and replay of a seed).
+func worldDigest(w *world) string {
+	h := sha256.New()
+	for _, a := range w.list {
+		h.Write([]byte(a.name))
+		h.Write(a.data)
+	}
+	return hex.EncodeToString(h.Sum(nil)[:8])
 }
 
 func totalLen(w *world) int {
